@@ -373,25 +373,36 @@ def named_reads(e, names, out):
     if not ilshape.is_il(e):
         return out
     s = e[2]
-    if s[0] == "scalar" and s[1] in names:
-        out.add("named:" + s[1])
+    if s[0] == "scalar" and s[1]:
+        nms = s[1] if isinstance(s[1], tuple) else (s[1],)
+        if any(n in names for n in nms):
+            out.add("named:" + "|".join(nms))
     elif s[0] == "op":
         for a in s[2]:
             named_reads(a, names, out)
     return out
 
 
-def hazards(res, regnames=frozenset()):
+def hazards(res, regnames=frozenset(), canon=None):
     """(write op, read op, written id, read id): an operand register is read by a later operation on the same path after
-    another operand register - possibly the same architectural register - was written."""
+    another operand register - possibly the same architectural register - was written.  Ids are sets of alternatives;
+    `canon` maps an alternative to 'named:<architectural register>' when it is a fixed register."""
+    canon = canon or (lambda i: i)
+
+    def alts(i):
+        return {canon(x) for x in i.split("|")} if not i.startswith("named:") else {"named:" + x for x in i[6:].split("|")}
+
     out = []
     ops = res.ops
     for i, w in enumerate(ops):
         wid = w.get("dst_id")
-        if not wid and isinstance(w.get("dst"), str) and w["dst"] in regnames:
-            wid = "named:" + w["dst"]
+        if not wid and w.get("dst"):
+            nms = w["dst"] if isinstance(w["dst"], tuple) else (w["dst"],)
+            if any(n in regnames for n in nms):
+                wid = "named:" + "|".join(nms)
         if not wid or w["kind"] not in ("Assign", "Load"):
             continue
+        ws = alts(wid)
         for r in ops[i + 1:]:
             if not compatible(w["ctx"], r["ctx"]):
                 continue
@@ -405,8 +416,9 @@ def hazards(res, regnames=frozenset()):
                     reg_reads(r[f], reads)
                     named_reads(r[f], regnames, reads)
             for rid in sorted(reads):
-                # two architectural names are distinct registers; an operand may be any register
-                if rid != wid and not (rid.startswith("named:") and wid.startswith("named:")):
+                rs = alts(rid)
+                # two fixed architectural registers are distinct unless they are the same; an operand may be any register
+                if any(a != b and not (a.startswith("named:") and b.startswith("named:")) for a in ws for b in rs):
                     out.append((w, r, wid, rid))
     return out
 
